@@ -7,7 +7,7 @@ PID = "C14"
 TRUSTED = ["C driver harness/c/drv_dec.c (public decoder API, callback pre-fills its buffer with the junk byte)",
            "the theorems are stated for any inner decoder that returns with a chunk <= max_read (hypothesis dread_total)"]
 ASSUMPTIONS = ["read sizes and their sum are below 2^62", "input callback returns at most the bytes asked for",
-               "progress-callback clause is checked by the direct oracle and the correspondence, not yet by a theorem"]
+               "progress events: theorems progress_split_invariant / progress_counts_up (model) + direct oracle on the C"]
 
 
 def build(cb):
